@@ -123,6 +123,12 @@ class _Subst(ast.NodeTransformer):
         return n
 
 
+def _dotted_chain(v: ast.AST) -> bool:
+    while isinstance(v, ast.Attribute):
+        v = v.value
+    return isinstance(v, ast.Name)
+
+
 def _bind(fn: ast.AST, call: ast.Call, receiver: ast.AST | None, is_static: bool, is_class: bool, caller_is_method: bool) -> tuple[dict[str, ast.AST], list[ast.stmt]] | None:
     """parameter -> argument expression; arguments that are not simple are bound through a temporary assignment"""
     a = fn.args  # type: ignore[attr-defined]
@@ -155,9 +161,14 @@ def _bind(fn: ast.AST, call: ast.Call, receiver: ast.AST | None, is_static: bool
                 return None
             mapping[p.arg] = d
     pre: list[ast.stmt] = []
+    uses: dict[str, int] = {}
+    for st in fn.body:  # type: ignore[attr-defined]
+        for n in ast.walk(st):
+            if isinstance(n, ast.Name) and isinstance(n.ctx, ast.Load):
+                uses[n.id] = uses.get(n.id, 0) + 1
     stored = {n.id for st in fn.body for n in ast.walk(st) if isinstance(n, ast.Name) and isinstance(n.ctx, ast.Store)}  # type: ignore[attr-defined]
     for p, v in list(mapping.items()):
-        simple = isinstance(v, (ast.Name, ast.Constant)) or (isinstance(v, ast.Attribute) and isinstance(v.value, ast.Name))
+        simple = isinstance(v, ast.Constant) or _dotted_chain(v) or uses.get(p, 0) <= 1
         if not simple or p in stored:
             # keep the parameter as a local of the caller:  p = <argument>
             asg = ast.Assign(targets=[ast.Name(id=p, ctx=ast.Store())], value=v, type_comment=None)
@@ -278,6 +289,37 @@ class Inliner:
                 if isinstance(st, ast.Try):
                     for h in st.handlers:
                         h.body = splice(h.body)
+                # `if helper(...):` where the helper answers True / False at the end of each of its paths: the branch
+                # bodies move to where the helper returned
+                if isinstance(st, ast.If):
+                    test, neg = st.test, False
+                    if isinstance(test, ast.UnaryOp) and isinstance(test.op, ast.Not):
+                        test, neg = test.operand, True
+                    if isinstance(test, ast.Await):
+                        test = test.value
+                    if isinstance(test, ast.Call):
+                        t = self._target(fi, test)
+                        hb = helper_body(t[0], test, t[1]) if t is not None else None
+                        if hb is not None:
+                            body, pre = hb
+                            if not _tail_returns_only(body):
+                                body = _early_exit_form(body) or body
+                            rets = [n for b in body for n in ast.walk(b) if isinstance(n, ast.Return)]
+                            if len(rets) > 1 and _tail_returns_only(body) and all(isinstance(r.value, ast.Constant) and isinstance(r.value.value, bool) for r in rets):
+                                yes, no = (st.orelse, st.body) if neg else (st.body, st.orelse)
+
+                                def make_b(v: ast.AST | None, r: ast.AST, yes=yes, no=no) -> list[ast.stmt]:  # noqa: ANN001
+                                    src = yes if (isinstance(v, ast.Constant) and v.value is True) else no
+                                    return [copy.deepcopy(x) for x in src]
+
+                                new_body = _retarget(body, make_b, True, st)
+                                for x in pre + new_body:
+                                    ast.fix_missing_locations(x)
+                                _relocate(pre + new_body, st)
+                                out.extend(pre + new_body)
+                                changed = True
+                                self.inlined.append('%s -> %s (branching)' % (t[0].qualname, fi.qualname))
+                                continue
                 call, kind = _whole_call(st)
                 if call is not None:
                     t = self._target(fi, call)
@@ -308,14 +350,20 @@ class Inliner:
                             new_body = _retarget(body, make, kind in ('assign', 'return'), st)
                             for x in pre + new_body:
                                 ast.fix_missing_locations(x)
+                            _relocate(pre + new_body, st)
                             out.extend(pre + new_body)
                             changed = True
                             self.inlined.append('%s -> %s' % (t[0].qualname, fi.qualname))
                             continue
                 # expression helpers anywhere inside the statement
-                st2 = self._inline_exprs(fi, st, helper_body)
+                hoisted: list[ast.stmt] = []
+                st2 = self._inline_exprs(fi, st, helper_body, hoisted if isinstance(st, (ast.Expr, ast.Assign, ast.AugAssign, ast.AnnAssign, ast.Return, ast.Raise, ast.If, ast.Assert)) else None)
                 if st2 is not st:
                     changed = True
+                for x in hoisted:
+                    ast.fix_missing_locations(x)
+                _relocate(hoisted, st)
+                out.extend(hoisted)
                 out.append(st2)
             return out
 
@@ -330,7 +378,7 @@ class Inliner:
         f = call.func
         return (isinstance(f, ast.Name) and f.id == nm) or (isinstance(f, ast.Attribute) and f.attr == nm and isinstance(f.value, ast.Name) and f.value.id in ('self', 'cls'))
 
-    def _inline_exprs(self, fi, st: ast.stmt, helper_body):  # noqa: ANN001
+    def _inline_exprs(self, fi, st: ast.stmt, helper_body, hoist: list | None = None):  # noqa: ANN001
         inl = self
         hit = False
 
@@ -351,11 +399,17 @@ class Inliner:
                 if hb is None:
                     return n
                 body, pre = hb
-                if pre or len(body) != 1 or not isinstance(body[0], ast.Return) or body[0].value is None:
+                if not body or not isinstance(body[-1], ast.Return) or body[-1].value is None:
                     return n
+                lead = pre + body[:-1]
+                if lead:
+                    # straight-line helper in expression context: its statements are hoisted in front of the statement
+                    if hoist is None or any(isinstance(x, ast.Return) for b in lead for x in ast.walk(b)) or not all(isinstance(b, (ast.Assign, ast.AnnAssign, ast.AugAssign, ast.Expr, ast.Assert)) for b in lead):
+                        return n
+                    hoist.extend(lead)
                 hit = True
                 inl.inlined.append('%s -> %s (expression)' % (t[0].qualname, fi.qualname))
-                return body[0].value
+                return body[-1].value
 
             def visit_Await(self, n: ast.Await) -> ast.AST:
                 self.generic_visit(n)
@@ -374,6 +428,22 @@ class Inliner:
             new = copy.copy(st)
             return new
         return st
+
+
+def _relocate(stmts: list[ast.stmt], site: ast.AST) -> None:
+    """spliced statements sit, for every ordering purpose, at the line of the call they replace (fractions keep their
+    own order); the position in the source file, which the mypy side tables are keyed by, moves to _orig_pos"""
+    base = site.lineno  # type: ignore[attr-defined]
+    end = getattr(site, 'end_lineno', base) or base
+    k = 0
+    for st in stmts:
+        for n in ast.walk(st):
+            if hasattr(n, 'lineno'):
+                if getattr(n, '_orig_pos', None) is None:
+                    n._orig_pos = (n.lineno, n.col_offset, getattr(n, 'end_lineno', None), getattr(n, 'end_col_offset', None))  # type: ignore[attr-defined]
+                k += 1
+                n.lineno = base + min(k, 9999) * 1e-5  # type: ignore[attr-defined]
+                n.end_lineno = max(end, n.lineno)  # type: ignore[attr-defined]
 
 
 def _encloses(outer, inner) -> bool:  # noqa: ANN001
